@@ -60,9 +60,20 @@ def run(verbose: bool = False) -> dict:
         good = RefKey.from_jwk(v["jwk"]).thumbprint() == v["expect"]
         (bad.append(v["name"]) if not good else None)
         ok += good
+    # curve constants: the generator is on the curve, has the stated order ((n-1)G = -G, p and n of the stated size) - found wrong once for the order
+    # of P-521, which nothing had used until then
+    from .prim import CURVES
+    for name, c in CURVES.items():
+        try:
+            x1, y1 = c.mul(c.n - 1, c.g)
+            good = c.on_curve(c.g) and x1 == c.g[0] and (y1 + c.g[1]) % c.p == 0 and c.n.bit_length() in (8 * c.size, 521) and c.p.bit_length() in (8 * c.size, 521)
+        except Exception:
+            good = False
+        (bad.append("curve constants " + name) if not good else None)
+        ok += good
     # produce->consume self-consistency of refjose over every algorithm it implements is
     # exercised by the property checks; here only the external vectors count.
-    _CACHE = {"vectors": len(V["jws"]) + len(V["jwe"]) + len(V["thumbprint"]), "reproduced": ok, "failed": bad}
+    _CACHE = {"vectors": len(V["jws"]) + len(V["jwe"]) + len(V["thumbprint"]) + len(CURVES), "reproduced": ok, "failed": bad}
     return _CACHE
 
 
